@@ -185,6 +185,13 @@ func (p *Peer) Seal(typ byte, data []byte, o SealOpt) []byte {
 		}
 		pt[len(pt)-1-padLen+(o.CorruptPad-1)] ^= mask
 	}
+	if p.Prof.ImplicitIV {
+		// TLS 1.0: the IV is the last ciphertext block of the previous record (initially from the key block)
+		ct := make([]byte, len(pt))
+		cipher.NewCBCEncrypter(p.Prof.Block(h.Key), h.IV).CryptBlocks(ct, pt)
+		h.IV = append([]byte{}, ct[len(ct)-16:]...)
+		return ct
+	}
 	iv := make([]byte, 16)
 	if o.IV != nil {
 		copy(iv, o.IV)
@@ -228,12 +235,22 @@ func (p *Peer) open(typ byte, vers uint16, body []byte) ([]byte, error) {
 		return pt, nil
 	}
 	ml := p.Prof.MacLen
-	if len(body) < 16+(ml+1+15)/16*16 || len(body)%16 != 0 {
-		return nil, errors.New("gmref: CBC record of impossible length")
+	var pt []byte
+	if p.Prof.ImplicitIV {
+		if len(body) < (ml+1+15)/16*16 || len(body)%16 != 0 {
+			return nil, errors.New("gmref: CBC record of impossible length")
+		}
+		pt = make([]byte, len(body))
+		cipher.NewCBCDecrypter(p.Prof.Block(h.Key), h.IV).CryptBlocks(pt, body)
+		h.IV = append([]byte{}, body[len(body)-16:]...)
+	} else {
+		if len(body) < 16+(ml+1+15)/16*16 || len(body)%16 != 0 {
+			return nil, errors.New("gmref: CBC record of impossible length")
+		}
+		p.PeerIVs = append(p.PeerIVs, append([]byte{}, body[:16]...))
+		pt = make([]byte, len(body)-16)
+		cipher.NewCBCDecrypter(p.Prof.Block(h.Key), body[:16]).CryptBlocks(pt, body[16:])
 	}
-	p.PeerIVs = append(p.PeerIVs, append([]byte{}, body[:16]...))
-	pt := make([]byte, len(body)-16)
-	cipher.NewCBCDecrypter(p.Prof.Block(h.Key), body[:16]).CryptBlocks(pt, body[16:])
 	pl := int(pt[len(pt)-1])
 	if pl+1+ml > len(pt) {
 		return nil, errors.New("gmref: CBC padding longer than record")
